@@ -14,7 +14,8 @@ Not compared: fstat/lstat/readlink/lseek/ioctl/fcntl/mmap (issued inside a
 Python-level open/read, or by the interposer's own realpath()), the removal of
 emptied temporary directories by the standard library's finalizers (directory
 opens, rmdir) and tempfile's writability probe of TMPDIR: no data passes there.
-A mismatch is a MACHINERY problem (exit 2): the enumeration would be incomplete.
+A mismatch is reported (AUDIT line, evidence key enumeration_complete_per_strace =
+false) but is neither a verdict nor a failure of what was explored.
 """
 import collections
 import json
@@ -81,6 +82,8 @@ def audit(workdir, name):
                 if sc in ("openat",) and re.search(r'/tmp/[a-z0-9_]{8}"', a):
                     continue
                 paths = re.findall(r"<([^<>]+)>", a) + re.findall(r'"([^"]*)"', a)
+                if KIND[sc] == "rename":
+                    paths = paths[::-1]     # the interposer logs a rename under its DESTINATION
                 for q in paths:
                     if any(q == r or q.startswith(r + "/") for r in roots):
                         if sc in ("write", "close") and re.search(r"/tmp/[a-z0-9_]{8}$", q):
